@@ -31,6 +31,7 @@ type Graph struct {
 	assignCount map[*types.Var]int
 	assumedFn   func(Fact) bool // set while a query with Assume runs
 	flagIx      map[*types.Var]int
+	iifeAssigns map[*ast.ExprStmt][]*types.Var // variables assigned inside a literal that the statement calls on the spot
 	entryVals   map[*GNode]map[Val]bool // valuations with which each node is reached from the entry (lazily, no assumption)
 	seeding     bool
 	nilIx       map[*types.Var]int // tracked locals of type error: the valuation holds the truth of `v != nil`
@@ -267,12 +268,68 @@ func (g *Graph) findFlags() {
 			bad[v] = true
 		}
 	}
+	iife := map[*ast.FuncLit]*ast.ExprStmt{}
+	g.iifeAssigns = map[*ast.ExprStmt][]*types.Var{}
 	var walk func(n ast.Node, here bool)
 	walk = func(n ast.Node, here bool) {
 		ast.Inspect(n, func(m ast.Node) bool {
 			switch t := m.(type) {
+			case *ast.ExprStmt:
+				// a literal that is called on the spot (`func() { ... }()`) runs as part of this body: what it assigns is
+				// unknown after the statement, but the variable stays trackable
+				if call, isCall := t.X.(*ast.CallExpr); isCall && here && len(call.Args) == 0 {
+					if fl, isLit := call.Fun.(*ast.FuncLit); isLit {
+						iife[fl] = t
+					}
+				}
 			case *ast.FuncLit:
 				if m != n {
+					if st := iife[t]; st != nil {
+						nested := false
+						ast.Inspect(t.Body, func(x ast.Node) bool {
+							switch y := x.(type) {
+							case *ast.FuncLit:
+								// a literal inside that assigns nothing declared outside of itself cannot touch a tracked variable
+								ast.Inspect(y.Body, func(z ast.Node) bool {
+									if as, ok := z.(*ast.AssignStmt); ok {
+										for _, l := range as.Lhs {
+											if id, ok := ast.Unparen(l).(*ast.Ident); ok {
+												if v, ok := info.Uses[id].(*types.Var); ok && !v.IsField() && (v.Pos() < y.Pos() || v.Pos() > y.End()) {
+													nested = true
+												}
+											}
+										}
+									}
+									return true
+								})
+								return false
+							case *ast.AssignStmt:
+								for _, l := range y.Lhs {
+									if id, ok := ast.Unparen(l).(*ast.Ident); ok {
+										if v, ok := info.Uses[id].(*types.Var); ok && !v.IsField() {
+											g.iifeAssigns[st] = append(g.iifeAssigns[st], v)
+										}
+									}
+								}
+							}
+							return true
+						})
+						if !nested {
+							// the variables it defines itself are its own; `&x` inside still disqualifies (walk below sees it)
+							ast.Inspect(t.Body, func(x ast.Node) bool {
+								if u, ok := x.(*ast.UnaryExpr); ok && u.Op == token.AND {
+									if id, ok := ast.Unparen(u.X).(*ast.Ident); ok {
+										if v, ok := info.Uses[id].(*types.Var); ok {
+											bad[v] = true
+										}
+									}
+								}
+								return true
+							})
+							return false
+						}
+						delete(g.iifeAssigns, st)
+					}
 					walk(t.Body, false)
 					return false
 				}
@@ -613,6 +670,15 @@ func (g *Graph) transfer(n *GNode, v Val) Val {
 		v = v.set(i, g.eval(rhs, v))
 	}
 	switch t := n.Node.(type) {
+	case *ast.ExprStmt:
+		for _, av := range g.iifeAssigns[t] {
+			if i, ok := g.flagIx[av]; ok {
+				v = v.set(i, tvU)
+			}
+			if i, ok := g.nilIx[av]; ok {
+				v = v.set(i, tvU)
+			}
+		}
 	case *ast.AssignStmt:
 		if len(t.Lhs) == len(t.Rhs) {
 			for i := range t.Lhs {
